@@ -29,7 +29,12 @@ def run(ctx):
     return common.finish(ctx)
 
 
-EXTRA = {}
+def _lin(ctx):
+    n = 400 if not ctx.thorough else 6000
+    return [generic.engine_run(ctx, "lin", ["--seed", str(ctx.seed), "--n", str(n)], "lin", timeout=1500)]
+
+
+EXTRA = {"C09": _lin}
 
 
 def replay(ctx, path):
